@@ -8,6 +8,7 @@ from .pyrules import module, norm
 from .poly import P, from_ast
 
 LEVEL = 'other'
+COPIES = ('c.copy()', 'np.copy(c)', 'np.array(c,copy=True)', 'np.array(c)', 'copy.copy(c)', 'copy.deepcopy(c)', 'c+0', 'c*1', 'c*1.0')
 NR = 'compmech/analysis/newton_raphson.py'
 ANALYSIS = 'compmech/analysis/analysis.py'
 
@@ -177,10 +178,11 @@ def run(chk):
         chk.ob('R09.1', norm(cfg.nodes[i].value) == '%s.increments.append(total)' % run_, NR, fname, 'reported load factor', got=norm(cfg.nodes[i].value))
     # ---- R09.2 snapshots
     for i in app_cs:
-        chk.ob('R09.2', norm(cfg.nodes[i].value) == '%s.cs.append(c.copy())' % run_, NR, fname, 'state appended as a copy', line=cfg.nodes[i].lineno,
+        arg = cfg.nodes[i].value.args[0] if cfg.nodes[i].value.args else None
+        chk.ob('R09.2', norm(arg) in COPIES, NR, fname, 'state appended as a copy', line=cfg.nodes[i].lineno,
                expected='run.cs.append(c.copy())', got=norm(cfg.nodes[i].value), sample='run.cs.append(c.copy())')
     restarts = [n for n in ast.walk(fn) if isinstance(n, ast.Assign) and '%s.cs[' % run_ in norm(n.value)]
-    chk.ob('R09.2', bool(restarts) and all(norm(r) == 'c=%s.cs[-1].copy()' % run_ for r in restarts), NR, fname, 'restart from a copy of the last state',
+    chk.ob('R09.2', bool(restarts) and all(norm(r.targets[0]) == 'c' and norm(r.value) in tuple(x.replace('c', '%s.cs[-1]' % run_, 1) if x.startswith('c') else x.replace('(c', '(%s.cs[-1]' % run_) for x in COPIES) for r in restarts), NR, fname, 'restart from a copy of the last state',
            got=[norm(r) for r in restarts], sample='c = run.cs[-1].copy()')
     inplace = []
     for n in ast.walk(fn):
@@ -297,7 +299,9 @@ def r09_4(chk, fn, run_):
     outer_brk = [n for n in bad if isinstance(n, ast.If) and norm(n.test) == 'inc<%s.minInc' % run_ and any(isinstance(b, ast.Break) for b in n.body)]
     chk.ob('R09.4', len(brk) >= 2 and len(outer_brk) == 1, NR, fname, 'stop when the increment is below the minimum', got=len(brk))
     gtxt = [norm(n) for s in good for n in ast.walk(s) if isinstance(n, (ast.Assign, ast.AugAssign))]
-    ok = 'total+=inc' in gtxt and 'total=min(1,total)' in gtxt and gtxt.index('total+=inc') < gtxt.index('total=min(1,total)')
+    caps = [n for s_ in good for n in ast.walk(s_) if isinstance(n, ast.Assign) and norm(n.targets[0]) == 'total' and pyrules.same_expr(n.value, 'min(1, total)')]
+    adv = [n for s_ in good for n in ast.walk(s_) if isinstance(n, ast.AugAssign) and norm(n) == 'total+=inc']
+    ok = len(caps) == 1 and len(adv) == 1 and adv[0].lineno < caps[0].lineno
     chk.ob('R09.4', ok, NR, fname, 'advance: total += inc, capped at 1', got=gtxt, sample='advance: total += inc; total = min(1, total)')
     fin = [n for s in good for n in ast.walk(s) if isinstance(n, ast.If) and norm(n.test) in ('abs(total-1)<0.001',)]
     chk.ob('R09.4', bool(fin) and any(norm(x) == 'finished=True' for x in fin[0].body), NR, fname, 'finished when the full load is reached', got=[norm(f.test) for f in fin])
